@@ -121,20 +121,21 @@ func (w *worker) exec(c Case) (res result) {
 }
 
 type stats struct {
-	total            int64
-	errored          int64
-	acceptedErr      int64
-	noChange         int64
-	hardTemptKept    int64
-	temptKept        int64
-	beChecked        int64
-	freshChecked     int64
-	outsideRows      int64
-	subsetWritten    int64 // cases whose target is a strict non-empty subset and that changed a cell
-	colUpdKeptTime   int64 // UpdateColumn(s) cases that wrote something and left both auto-time cells alone
-	hookUpdRefreshed int64 // hook-running update cases with a refreshed update-time
-	omitKeptTime     int64 // hook-running update cases with update-time omitted and kept
-	newRowsSeen      int64
+	total              int64
+	errored            int64
+	acceptedErr        int64
+	noChange           int64
+	hardTemptKept      int64
+	temptKept          int64
+	beChecked          int64
+	freshChecked       int64
+	outsideRows        int64
+	subsetWritten      int64 // cases whose target is a strict non-empty subset and that changed a cell
+	colUpdSuppliedKept int64 // column-update / SkipHooks cases that wrote something while the value carried a non-zero update-time that had to stay unwritten (omitted / not selected)
+	colUpdKeptTime     int64 // UpdateColumn(s) cases that wrote something and left both auto-time cells alone
+	hookUpdRefreshed   int64 // hook-running update cases with a refreshed update-time
+	omitKeptTime       int64 // hook-running update cases with update-time omitted and kept
+	newRowsSeen        int64
 }
 
 var errNorm = regexp.MustCompile(`[0-9]+`)
@@ -273,10 +274,13 @@ func check(x *ctx, w *worker, c Case, distinct *mc.Set) {
 		if changed && len(tr) > 0 && len(tr) < 3 {
 			atomic.AddInt64(&st.subsetWritten, 1)
 		}
-		if changed && finSkipsHooks(c.Fin) {
+		if changed && c.noHooks() && len(tr) > 0 && c.TVals[1] != 0 && pr.rows[tr[0]][lUT].kind == xKeep {
+			atomic.AddInt64(&st.colUpdSuppliedKept, 1)
+		}
+		if changed && c.noHooks() {
 			atomic.AddInt64(&st.colUpdKeptTime, 1)
 		}
-		if res.err == nil && len(tr) > 0 && !finSkipsHooks(c.Fin) {
+		if res.err == nil && len(tr) > 0 && !c.noHooks() {
 			if pr.rows[tr[0]][lUT].kind == xFresh {
 				atomic.AddInt64(&st.hookUpdRefreshed, 1)
 			} else if pr.rows[tr[0]][lUT].kind == xKeep {
@@ -583,17 +587,53 @@ func enumerate(u unit, tier string, emit func(Case)) {
 	} else if finSelfKeyed(u.fin) {
 		targets = []int{tKey, tBoth, tDisjoint}
 	}
+	// value combinations: every data pattern without explicit time values, and
+	// a few data patterns with explicit non-zero create-time/update-time values
+	type combo struct {
+		v  [4]int
+		tv [2]int
+	}
+	var combos []combo
+	for _, v := range vals {
+		combos = append(combos, combo{v: v})
+	}
+	focus, _ := focusOf(u.m)
+	var allNZ, focusOnly, none [4]int
+	for i := range allNZ {
+		allNZ[i] = vNonZero
+	}
+	for _, f := range focus {
+		focusOnly[f] = vNonZero
+	}
+	if finIsSingle(u.fin) {
+		combos = append(combos, combo{none, [2]int{0, 1}}, combo{none, [2]int{1, 0}})
+	} else if tier == "thorough" && len(focus) > 1 {
+		combos = append(combos, combo{allNZ, [2]int{1, 1}}, combo{allNZ, [2]int{0, 1}}, combo{none, [2]int{0, 1}})
+	} else {
+		for _, tv := range [][2]int{{0, 1}, {1, 1}, {1, 0}} {
+			combos = append(combos, combo{allNZ, tv}, combo{focusOnly, tv}, combo{none, tv})
+		}
+	}
+	sessions := []bool{false}
+	if finAllowsSkipHooksSession(u.fin) {
+		sessions = []bool{false, true}
+	}
 	for _, s := range sels {
-		for _, v := range vals {
+		for _, cb := range combos {
 			for _, sp := range spells {
 				for _, tg := range targets {
-					c := Case{Model: u.m, Fin: u.fin, Sel: s, Vals: canonVals(u.fin, v), KeySpell: sp, Target: tg}
-					k := c.key()
-					if seen[k] {
-						continue
+					for _, sk := range sessions {
+						if sk && tg != tKey && tg != tCond {
+							continue
+						}
+						c := Case{Model: u.m, Fin: u.fin, Sel: s, Vals: canonVals(u.fin, cb.v), KeySpell: sp, Target: tg, TVals: cb.tv, SkipHooks: sk}
+						k := c.key()
+						if seen[k] {
+							continue
+						}
+						seen[k] = true
+						emit(c)
 					}
-					seen[k] = true
-					emit(c)
 				}
 			}
 		}
@@ -695,6 +735,7 @@ func main() {
 	floor("rows_outside_target_verified_unchanged", st.outsideRows, 100000*scale)
 	floor("strict_subset_targets_written", st.subsetWritten, 10000*scale)
 	floor("updatecolumn_cases_written_autotime_kept", st.colUpdKeptTime, 3000*scale)
+	floor("column_update_cases_supplied_update_time_kept", st.colUpdSuppliedKept, 1000*scale)
 	floor("hook_update_cases_update_time_refreshed", st.hookUpdRefreshed, 10000*scale)
 	floor("hook_update_cases_update_time_omitted_kept", st.omitKeptTime, 1000*scale)
 	floor("positive_cells_checked", st.beChecked, 50000*scale)
@@ -713,30 +754,32 @@ func main() {
 	pprof.StopCPUProfile()
 	run.Assume("SQLite dialect (RETURNING on) only; models without hooks, associations, default values, embedded structs or soft delete; one single-column primary key")
 	run.Assume("the reference meaning of each permission tag and of Select/Omit is written from gorm's documentation in oracle.go/model.go and is trusted")
-	run.Assume("cells classified 'free' by the reference model are not asserted: auto-time cells on create under a restricting Select, on create-from-map, on upsert-from-map and under explicit DoUpdates; a DoUpdates column listed by hand for a restricted field; a map key spelled as the raw column name of a field gorm ignores (-, -:all); the primary key cell and the create-time cell when Select(\"*\")/explicit Select meets a struct value; in-memory write-back into the model value is not part of this property")
+	run.Assume("cells classified 'free' by the reference model are not asserted: auto-time cells on create under a restricting Select that does not name them, on create-from-map / upsert-from-map without a key for them, the update-time cell on upsert-from-map and under explicit DoUpdates; a DoUpdates column listed by hand for a restricted field; a map key spelled as the raw column name of a field gorm ignores (-, -:all); the primary key cell when Select(\"*\") meets a struct value; a create-time/update-time cell that is selected explicitly while the struct carries the zero value (only 'never a fresh time' is asserted); a map key for the update-time column under a hook-running update: caller's value or now are both accepted when the column is selected/unrestricted, nothing is asserted when a restricting Select does not name it; in-memory write-back into the model value is not part of this property")
+	run.Assume("a Session{SkipHooks:true} chain is treated like the column-update methods (no refresh of update-time, update-time written only when selected or supplied)")
 	run.Finish(map[string]interface{}{
 		"evaluations":         st.total,
 		"distinct_nontrivial": distinctTotal,
-		"rule": "every model of the bound (quick: <=1 tagged data field: 9 tags x 4 positions, plus time.Time / <-:create create-time variants of the untagged model; thorough: all variants of those plus every pair of tagged fields) x 21 write programs x Select/Omit sets x value patterns (absent/zero/non-zero/Expr per field) x key spelling x target (model key / condition / both / both-disjoint); " +
+		"rule": "every model of the bound (quick: <=1 tagged data field: 9 tags x 4 positions, plus time.Time / <-:create create-time variants of the untagged model; thorough: all variants of those plus every pair of tagged fields) x 21 write programs x Select/Omit sets x value patterns (absent/zero/non-zero/Expr per data field; explicit non-zero create-time/update-time values none/update/both/create on a subset of the data patterns) x Session{SkipHooks} on/off for Updates(struct|&self|map) x key spelling x target (model key / condition / both / both-disjoint); " +
 			"a case is non-trivial when the write changed at least one cell AND at least one cell for which a value was offered had to stay untouched (denied by tag, omitted, not selected, zero struct field is not counted) and the whole oracle passed; distinct = distinct (model, program, sel, values, spelling, target) tuples",
-		"samples":                                    x.samples.List(),
-		"exhaustive":                                 timedOut == 0,
-		"models":                                     len(ms),
-		"programs":                                   nFin,
-		"distinct_outcomes":                          x.outcomes.Len(),
-		"cases_returning_error":                      st.errored,
-		"cases_error_accepted_by_model":              st.acceptedErr,
-		"cases_without_any_cell_change":              st.noChange,
-		"denied_cells_offered_and_kept":              st.hardTemptKept,
-		"restricted_cells_offered_and_kept":          st.temptKept,
-		"positive_cells_checked":                     st.beChecked,
-		"fresh_time_cells_checked":                   st.freshChecked,
-		"rows_outside_target_verified_unchanged":     st.outsideRows,
-		"strict_subset_targets_written":              st.subsetWritten,
-		"updatecolumn_cases_written_autotime_kept":   st.colUpdKeptTime,
-		"hook_update_cases_update_time_refreshed":    st.hookUpdRefreshed,
-		"hook_update_cases_update_time_omitted_kept": st.omitKeptTime,
-		"new_rows_seen":                              st.newRowsSeen,
-		"error_classes":                              errs,
+		"samples":                                       x.samples.List(),
+		"exhaustive":                                    timedOut == 0,
+		"models":                                        len(ms),
+		"programs":                                      nFin,
+		"distinct_outcomes":                             x.outcomes.Len(),
+		"cases_returning_error":                         st.errored,
+		"cases_error_accepted_by_model":                 st.acceptedErr,
+		"cases_without_any_cell_change":                 st.noChange,
+		"denied_cells_offered_and_kept":                 st.hardTemptKept,
+		"restricted_cells_offered_and_kept":             st.temptKept,
+		"positive_cells_checked":                        st.beChecked,
+		"fresh_time_cells_checked":                      st.freshChecked,
+		"rows_outside_target_verified_unchanged":        st.outsideRows,
+		"strict_subset_targets_written":                 st.subsetWritten,
+		"updatecolumn_cases_written_autotime_kept":      st.colUpdKeptTime,
+		"column_update_cases_supplied_update_time_kept": st.colUpdSuppliedKept,
+		"hook_update_cases_update_time_refreshed":       st.hookUpdRefreshed,
+		"hook_update_cases_update_time_omitted_kept":    st.omitKeptTime,
+		"new_rows_seen":                                 st.newRowsSeen,
+		"error_classes":                                 errs,
 	})
 }
